@@ -326,6 +326,17 @@ static m_evt_cb HANDLERS[NHANDLERS] = { evt_cb_0, evt_cb_1, evt_cb_2, evt_cb_3, 
 
 static long idnum(const char *t) { return strtol(t + 1, NULL, 10); }
 
+/* topic strings owned by the caller for as long as the process lives (subscriptions made without M_SRC_DUP point into it) */
+static const char *intern_topic(const char *t) {
+    static char *pool[64]; static int n; static pthread_mutex_t mx = PTHREAD_MUTEX_INITIALIZER;
+    const char *r = NULL;
+    pthread_mutex_lock(&mx);
+    for (int i = 0; i < n && !r; i++) if (!strcmp(pool[i], t)) r = pool[i];
+    if (!r && n < 64) r = pool[n++] = strdup(t);
+    pthread_mutex_unlock(&mx);
+    return r ? r : t;
+}
+
 static m_src_flags prio_flags(const char *f) {
     m_src_flags fl = 0;
     if (strchr(f, 'l')) fl |= M_SRC_PRIO_LOW;
@@ -421,9 +432,12 @@ static int exec_line(const char *line) {
     if (!strcmp(t[0], "pill") && n == 3) { NEEDH(1, m); NEEDH(2, r); result(m_mod_ps_poisonpill(m, r)); return -1; }
     if (!strcmp(t[0], "sub") && n == 6) {
         NEEDH(1, m);
-        m_src_flags fl = prio_flags(t[3]) | M_SRC_DUP;
+        /* 'x' in the flags field: the topic string stays the caller's (no M_SRC_DUP): it is handed over from a pool of strings
+         * that live as long as the process; otherwise the library duplicates the (stack) string */
+        int nodup = strchr(t[3], 'x') != NULL;
+        m_src_flags fl = prio_flags(t[3]) | (nodup ? 0 : M_SRC_DUP);
         if (atoi(t[4])) fl |= M_SRC_ONESHOT;
-        result(m_mod_ps_subscribe(m, t[2], fl, (void *)(intptr_t)idnum(t[5]))); return -1;
+        result(m_mod_ps_subscribe(m, nodup ? intern_topic(t[2]) : t[2], fl, (void *)(intptr_t)idnum(t[5]))); return -1;
     }
     if (!strcmp(t[0], "unsub") && n == 3) { NEEDH(1, m); result(m_mod_ps_unsubscribe(m, t[2])); return -1; }
     if (!strcmp(t[0], "reg_fd") && n == 5) {
@@ -467,8 +481,8 @@ static int exec_line(const char *line) {
     if ((!strcmp(t[0], "reg_path") && n == 5) || (!strcmp(t[0], "dereg_path") && n == 3)) {
         NEEDH(1, m); int i = atoi(t[2]);
         /* directories of pseudo file systems: watchable, and nothing another process does creates an inotify event there */
-        static const char *paths[] = { "", "/proc/sys", "/sys", "/proc" };
-        m_src_path_t pt = { paths[i >= 0 && i < 4 ? i : 0], 0x100 /* IN_CREATE */ };
+        static const char *paths[] = { "", "/proc/sys", "/sys", "/proc", "/nonexistent/lmverif" /* cannot be watched */ };
+        m_src_path_t pt = { paths[i >= 0 && i < 5 ? i : 0], 0x100 /* IN_CREATE */ };
         if (t[0][0] == 'd') { result(m_mod_src_deregister_path(m, &pt)); return -1; }
         m_src_flags fl = prio_flags(t[3]); if (strchr(t[3], 'o')) fl |= M_SRC_ONESHOT; if (strchr(t[3], 'd')) fl |= M_SRC_DUP;
         result(m_mod_src_register_path(m, &pt, fl, (void *)(intptr_t)idnum(t[4]))); return -1;
